@@ -1,3 +1,5 @@
+#[cfg(jgilchrist_tcheran_verif)]
+use crate::verif_shim as std;
 use std::sync::atomic::{AtomicBool, Ordering};
 use std::sync::Arc;
 use std::time::{Duration, Instant};
@@ -123,6 +125,9 @@ impl TimeStrategy {
     }
 
     pub fn should_stop(&mut self, nodes_visited: u64) -> bool {
+        #[cfg(jgilchrist_tcheran_verif)]
+        crate::verif_hooks::nodes(nodes_visited);
+
         if nodes_visited < self.next_check_at {
             return false;
         }
@@ -141,6 +146,18 @@ impl TimeStrategy {
     }
 
     fn is_force_stopped(&self) -> bool {
+        #[cfg(jgilchrist_tcheran_verif)]
+        if let Some(v) = crate::verif_hooks::poll(&self.force_stop) {
+            return v;
+        }
+
         self.force_stop.load(Ordering::Relaxed)
+    }
+}
+
+#[cfg(jgilchrist_tcheran_verif)]
+impl TimeStrategy {
+    pub fn verif_limits(&self) -> (Duration, Duration) {
+        (self.soft_stop, self.hard_stop)
     }
 }
